@@ -6,39 +6,84 @@ Require Import PyBase Tracer TracerNames TracerReindex.
 Section ReindexFacts.
   Variable num : Type.
   Notation tderef := (tderef num).
-  Notation reindex_cells := (reindex_cells).
   Notation trace_t_cells := (trace_t_cells num).
   Notation copy_cells := (copy_cells num).
 
-  (* the cell of a period of the reindexed instance: the SAME reference as in the original when the period existed,
-     None when it is new *)
+  (* ---- since fix 28b2a9a ---- *)
+  (* reindex(): a period that is new holds None; a period both spans have gets its OWN Trace object with the contents of
+     the original's; no existing object is touched *)
+  Theorem reindex_cells_fresh : forall positions cells h,
+    let '(cs, h') := reindex_cells num positions cells h in
+    length cs = length positions /\ (length h <= length h')%nat /\
+    (forall a, (a < length h)%nat -> tderef h' a = tderef h a) /\
+    (forall i, match nth i positions None with
+               | None => nth i cs None = None
+               | Some q => match nth q cells None with
+                           | None => nth i cs None = None
+                           | Some a => (a < length h)%nat ->
+                               exists b, nth i cs None = Some b /\ (length h <= b < length h')%nat /\ tderef h' b = tderef h a
+                           end
+               end).
+  Proof.
+    induction positions as [|o positions IH]; intros cells h.
+    { cbn [TracerReindex.reindex_cells]. split; [reflexivity|]. split; [lia|]. split; [reflexivity|].
+      intros i. destruct i; reflexivity. }
+    cbn [TracerReindex.reindex_cells].
+    destruct o as [q|].
+    2:{ specialize (IH cells h). destruct (reindex_cells num positions cells h) as [cs h'].
+        destruct IH as (I1 & I2 & I3 & I4).
+        split; [cbn [length]; rewrite I1; reflexivity|]. split; [exact I2|]. split; [exact I3|].
+        intros [|i]; cbn [nth]; [reflexivity|exact (I4 i)]. }
+    destruct (nth q cells None) as [a0|] eqn:Eq.
+    - specialize (IH cells (h ++ [tderef h a0])). destruct (reindex_cells num positions cells (h ++ [tderef h a0])) as [cs h'].
+      destruct IH as (I1 & I2 & I3 & I4). rewrite app_length in I2, I3. cbn [length] in I2, I3.
+      assert (Hold : forall a, (a < length h)%nat -> tderef h' a = tderef h a).
+      { intros a Ha. rewrite I3 by lia. unfold TracerReindex.tderef. apply app_nth1. exact Ha. }
+      split; [cbn [length]; rewrite I1; reflexivity|]. split; [lia|]. split; [exact Hold|].
+      intros [|i]; cbn [nth].
+      + rewrite Eq. intros Ha. exists (length h). split; [reflexivity|]. split; [lia|].
+        rewrite I3 by lia. unfold TracerReindex.tderef. rewrite app_nth2 by lia. rewrite Nat.sub_diag. reflexivity.
+      + specialize (I4 i). destruct (nth i positions None) as [q'|]; [|exact I4].
+        destruct (nth q' cells None) as [a|]; [|exact I4].
+        intros Ha. destruct I4 as (b & B1 & B2 & B3).
+        { rewrite app_length. cbn [length]. lia. }
+        exists b. split; [exact B1|]. rewrite app_length in B2. cbn [length] in B2. split; [lia|].
+        rewrite B3. unfold TracerReindex.tderef. apply app_nth1. exact Ha.
+    - specialize (IH cells h). destruct (reindex_cells num positions cells h) as [cs h'].
+      destruct IH as (I1 & I2 & I3 & I4).
+      split; [cbn [length]; rewrite I1; reflexivity|]. split; [exact I2|]. split; [exact I3|].
+      intros [|i]; cbn [nth]; [rewrite Eq; reflexivity|exact (I4 i)].
+  Qed.
+
+  (* FINDING (new period after reindex, still present): trace_t on a period that did not exist before reindex raises
+     AttributeError — for every names / label / values / reset — and changes nothing *)
+  Theorem reindex_new_period_raises positions cells i names reset lab res h :
+    nth i positions None = None ->
+    let '(cs, h') := reindex_cells num positions cells h in
+    trace_t_cells names reset i lab res cs h' = ((cs, h'), Some AttributeError).
+  Proof.
+    intros H. pose proof (reindex_cells_fresh positions cells h) as F.
+    destruct (reindex_cells num positions cells h) as [cs h']. destruct F as (_ & _ & _ & F).
+    specialize (F i). rewrite H in F. unfold TracerReindex.trace_t_cells. unfold tcell, addr in *. rewrite F. reflexivity.
+  Qed.
+
+  (* ---- what fix 28b2a9a removed (the reverse patch, reindex_cells_shared) ---- *)
   Lemma reindex_cell positions cells i :
-    nth i (reindex_cells positions cells) None
+    nth i (reindex_cells_shared positions cells) None
     = match nth i positions None with Some q => nth q cells None | None => None end.
   Proof.
-    unfold TracerReindex.reindex_cells.
+    unfold TracerReindex.reindex_cells_shared.
     exact (map_nth (fun o : option nat => match o with Some q => nth q cells None | None => None end) positions None i).
   Qed.
 
-  (* FINDING (new period after reindex): trace_t on a period that did not exist before reindex raises AttributeError —
-     for every names / label / values / reset — and changes nothing *)
-  Theorem reindex_new_period_raises positions cells i names reset lab res h :
-    nth i positions None = None ->
-    trace_t_cells names reset i lab res (reindex_cells positions cells) h
-    = ((reindex_cells positions cells, h), Some AttributeError).
-  Proof.
-    intros H. unfold TracerReindex.trace_t_cells. rewrite reindex_cell, H. reflexivity.
-  Qed.
-
-  (* FINDING (shared Trace objects after reindex): a period that was traced before (non-empty Trace, same width) and is
-     traced again through the REINDEXED instance with reset=False is appended to in place — the object is the one the
-     original instance still holds, so the original's Trace of that period grows by the snapshot *)
-  Theorem reindex_shares_trace_objects positions cells i q r names lab res h c cs :
+  (* without the deep copy a period that was traced before (non-empty Trace, same width) and is traced again through the
+     REINDEXED instance with reset=False was appended to in place — in the object the original instance still holds *)
+  Theorem reindex_without_deepcopy_shared positions cells i q r names lab res h c cs :
     nth i positions None = Some q -> nth q cells None = Some r -> (r < length h)%nat ->
     tr_values (tderef h r) = c :: cs -> length c = length res ->
     let old := tderef h r in
-    let '((cells', h'), e) := trace_t_cells names false i lab res (reindex_cells positions cells) h in
-    e = None /\ cells' = reindex_cells positions cells /\
+    let '((cells', h'), e) := trace_t_cells names false i lab res (reindex_cells_shared positions cells) h in
+    e = None /\ cells' = reindex_cells_shared positions cells /\
     tderef h' r = mkTrace (tr_names old) (tr_index old ++ [lab]) (tr_values old ++ [res]) /\
     tderef h' r <> old.
   Proof.
